@@ -246,6 +246,12 @@ example : ∃ s, runLabels .fixed init [.subCall 3, .subAcquire 0 3, .subCall 1,
       [(0, 0, 0, true), (1, 1, 0, true), (2, 2, 0, true), (3, 3, 3, false)] :=
   ⟨_, rfl, by decide⟩
 
+/-- A context cancelled before its `Subscribe` call got the lock: the subscribers are born
+cancelled (their forwarders can leave at once; they may still pass on values they find first). -/
+example : ∃ s, runLabels .fixed init [.subCall 2, .cancel 0, .subAcquire 0 2] = some s ∧
+    s.subs.map (fun u => (u.tag, u.cancelled)) = [(0, true), (1, true)] :=
+  ⟨_, rfl, by decide⟩
+
 /-- The log order respects the order of `Broadcast` calls.  An entry records, at the moment
 `Broadcast` is *called*, the tickets of all `Broadcast` calls that have already *returned*
 (`retBefore := returnedT`, and `bcReturn t` puts `t` into `returnedT`).  If `a` returned before
